@@ -395,7 +395,7 @@ Print Assumptions arena_rollback_nonvacuous.
 (** ** Towards [arena_refines_radix] (PARTIAL: abstraction function + lookup only).
     [abs_t d a idx] unfolds the arena below node [idx] into a radix tree of entry indices (to
     depth [d]); [vview] resolves the entries to their values.  [EInv]: the entries referenced
-    by nodes exist (a hypothesis here: preserved by the lookup, not yet shown for every
+    by nodes exist (assumed here: preserved by the lookup, not yet shown for every
     operation).  Insert / delete / delete_prefix are NOT covered (see design notes). *)
 
 (** [make_owned] - the copying of a shared children vector, which renumbers nodes and
